@@ -366,7 +366,7 @@ def _tree_oracle(impl, o):
             ('inspect', lambda: (spec.entries(), spec.children(), spec.paths(), spec.accessors(), spec.one_level(),
                                  spec.is_leaf(), spec.kind, spec.type, [spec.entry(i) for i in range(spec.num_children)],
                                  [spec.child(i) for i in range(spec.num_children)])),
-            ('walk', lambda: spec.walk(leaves, lambda ch: ch, ident) if hasattr(spec, 'walk') else None),
+            ('walk', lambda: spec.walk(leaves, lambda ty, md, ch: ch, ident) if hasattr(spec, 'walk') else None),
             ('traverse', lambda: spec.traverse(leaves, ident, ident) if hasattr(spec, 'traverse') else None),
             ('treespec_tuple', lambda: optree.treespec_tuple(specs_list, none_is_leaf=kw['none_is_leaf'],
                                                              namespace=kw['namespace'])),
